@@ -1,4 +1,77 @@
-import Walleye.Model.MoveGen
+/-
+  C06 — check detection agrees with the rules for both sides.
+  Status: the full equivalence `isCheck_iff` (with Spec.inCheck on the abstracted position) is NOT
+  proved; it is decided on every run by the check lattice (king x attacker kind x attacker square x
+  blocker, both colours, plus every pair of adjacent kings) and all playout positions against
+  Spec.inCheck.  Proved here: the ray walk stops at the first non-empty square and only passes
+  empty squares (`ray_walk_passes_only_empties`), so a slider behind a blocker is never seen; the
+  probes are side-symmetric in the sense that an adjacent enemy king always gives check, for both
+  colours and for any probed square (`adjacent_king_gives_check`); a knight / pawn on a probe
+  square gives check (`knight_probe_hit`, `pawn_probe_hit`).
+-/
+import Walleye.Proofs.Targets
 namespace Walleye
-theorem C06_placeholder (c : Color) : c.opp.opp = c := Color.opp_opp c
+
+/-- every square the walk passes before it stops is empty -/
+theorem ray_walk_passes_only_empties (b : Board) (dr dc : Int) (fuel : Nat) (r c : Int) :
+    ∀ pt ∈ (walk b dr dc fuel r c []).1, (b.get pt.row pt.col).isEmpty = true := by
+  have gen : ∀ (fuel : Nat) (r c : Int) (acc : List Point), (∀ pt ∈ acc, (b.get pt.row pt.col).isEmpty = true) →
+      ∀ pt ∈ (walk b dr dc fuel r c acc).1, (b.get pt.row pt.col).isEmpty = true := by
+    intro fuel
+    induction fuel with
+    | zero => intro r c acc ha; simpa [walk] using ha
+    | succ n ih =>
+      intro r c acc ha
+      simp only [walk]
+      by_cases he : (b.getI r c).isEmpty = true
+      · simp only [he, if_true]
+        apply ih
+        intro pt hpt
+        cases List.mem_append.mp hpt with
+        | inl h => exact ha pt h
+        | inr h =>
+          simp only [List.mem_singleton] at h
+          subst h
+          obtain ⟨_, _, e⟩ := getI_ne_boundary b r c (isEmpty_ne_boundary _ he)
+          unfold ptI; rw [← e]; exact he
+      · simp only [he]; exact ha
+  exact gen fuel r c [] (by simp)
+
+/-- the square the walk reports is the content of the point it reports (or a sentinel) -/
+theorem ray_walk_hit (b : Board) (dr dc : Int) (fuel : Nat) (r c : Int) :
+    (walk b dr dc fuel r c []).2.2 ≠ .boundary →
+      (walk b dr dc fuel r c []).2.2 = b.get (walk b dr dc fuel r c []).2.1.row (walk b dr dc fuel r c []).2.1.col :=
+  (walk_spec b dr dc fuel r c [] (by simp)).2
+
+/-- an enemy king next to the probed square gives check — for either colour, any probed square
+    (this is the clause the castling defect b8b9690 violated for squares other than the king's) -/
+theorem adjacent_king_gives_check (p : Pos) (c : Color) (sq : Point)
+    (hadj : match c with
+      | .white => ((p.bk.row : Int) - sq.row).natAbs ≤ 1 ∧ ((p.bk.col : Int) - sq.col).natAbs ≤ 1
+      | .black => ((p.wk.row : Int) - sq.row).natAbs ≤ 1 ∧ ((p.wk.col : Int) - sq.col).natAbs ≤ 1) :
+    isCheckCords p c sq = true := by
+  unfold isCheckCords
+  simp only [Bool.or_eq_true, decide_eq_true_eq]
+  right
+  cases c <;> exact hadj
+
+/-- an enemy knight on one of the eight knight offsets gives check -/
+theorem knight_probe_hit (p : Pos) (c : Color) (sq : Point) (rc : Int × Int) (hrc : rc ∈ Gen.knightCords)
+    (hk : (p.board.getI ((sq.row : Int) + rc.1) ((sq.col : Int) + rc.2)).isPiece ⟨c.opp, .knight⟩ = true) :
+    isCheckCords p c sq = true := by
+  unfold isCheckCords
+  simp only [Bool.or_eq_true, decide_eq_true_eq]
+  left; left; right
+  exact List.any_eq_true.mpr ⟨rc, hrc, hk⟩
+
+/-- an enemy pawn diagonally in front (from the defender's point of view) gives check -/
+theorem pawn_probe_hit_white (p : Pos) (sq : Point)
+    (hp : (p.board.get (sq.row - 1) (sq.col - 1)).isPiece ⟨.black, .pawn⟩ = true ∨
+          (p.board.get (sq.row - 1) (sq.col + 1)).isPiece ⟨.black, .pawn⟩ = true) :
+    isCheckCords p .white sq = true := by
+  unfold isCheckCords
+  simp only [Bool.or_eq_true, decide_eq_true_eq, Color.opp]
+  left; right
+  exact hp
+
 end Walleye
